@@ -320,7 +320,7 @@ impl<'a> CompilerState<'a> {
         let varname = px.as_str();
         let subscript = match p.next() {
             Some(pair) => {
-                let expr = self.parse_expr_ex(pair.into_inner())?;
+                let expr = self.parse_expr_ex(pair.into_inner(), self.literal_counter)?;
                 Box::new(expr.0)
             }
             None => Box::new(Expr::Nothing),
@@ -374,7 +374,7 @@ impl<'a> CompilerState<'a> {
     }
 
     fn parse_expr(&mut self, pairs: Pairs<'a, Rule>) -> Result<Expr, Error> {
-        let res = self.parse_expr_ex(pairs)?;
+        let res = self.parse_expr_ex(pairs, self.literal_counter)?;
 
         // Create collected literal variables in memory
         self.literal_counter += res.1.len();
@@ -411,11 +411,14 @@ impl<'a> CompilerState<'a> {
         Ok(res.0)
     }
 
+    // first_literal: number of the first string literal of this (sub)expression. A nested
+    // expression (parentheses, call parameters) continues the numbering of the enclosing one
     fn parse_expr_ex(
         &self,
         pairs: Pairs<'a, Rule>,
+        first_literal: usize,
     ) -> Result<(Expr, HashMap<String, String>), Error> {
-        let literal_counter = Rc::new(Mutex::new(self.literal_counter));
+        let literal_counter = Rc::new(Mutex::new(first_literal));
         let literal_strings = Rc::new(Mutex::new(HashMap::<String, String>::new()));
         if pairs.len() == 0 {
             let lit_strs = Rc::into_inner(literal_strings)
@@ -432,7 +435,8 @@ impl<'a> CompilerState<'a> {
                         primary.into_inner().next().unwrap(),
                     ))),
                     Rule::expr => {
-                        let res = self.parse_expr_ex(primary.into_inner())?;
+                        let first_literal = *literal_counter.lock().unwrap();
+                        let res = self.parse_expr_ex(primary.into_inner(), first_literal)?;
                         let mut lit_strs = literal_strings.lock().unwrap();
                         for k in &res.1 {
                             lit_strs.insert(k.0.clone(), k.1.clone());
@@ -515,7 +519,8 @@ impl<'a> CompilerState<'a> {
                 Rule::pp => Ok(Expr::PlusPlus(Box::new(lhs?), true)),
                 Rule::call => {
                     let params = if let Some(x) = op.into_inner().next() {
-                        let res = self.parse_expr_ex(x.into_inner())?;
+                        let first_literal = *literal_counter.lock().unwrap();
+                        let res = self.parse_expr_ex(x.into_inner(), first_literal)?;
                         let mut lit_strs = literal_strings.lock().unwrap();
                         for k in &res.1 {
                             lit_strs.insert(k.0.clone(), k.1.clone());
@@ -593,7 +598,8 @@ impl<'a> CompilerState<'a> {
                         primary.into_inner().next().unwrap(),
                     ))),
                     Rule::expr => {
-                        let res = self.parse_expr_ex(primary.into_inner())?;
+                        let first_literal = *literal_counter.lock().unwrap();
+                        let res = self.parse_expr_ex(primary.into_inner(), first_literal)?;
                         let mut lit_strs = literal_strings.lock().unwrap();
                         for k in &res.1 {
                             lit_strs.insert(k.0.clone(), k.1.clone());
@@ -675,7 +681,8 @@ impl<'a> CompilerState<'a> {
                 Rule::pp => Ok(Expr::PlusPlus(Box::new(lhs?), true)),
                 Rule::call => {
                     let params = if let Some(x) = op.into_inner().next() {
-                        let res = self.parse_expr_ex(x.into_inner())?;
+                        let first_literal = *literal_counter.lock().unwrap();
+                        let res = self.parse_expr_ex(x.into_inner(), first_literal)?;
                         let mut lit_strs = literal_strings.lock().unwrap();
                         for k in &res.1 {
                             lit_strs.insert(k.0.clone(), k.1.clone());
